@@ -1,6 +1,7 @@
 package checks
 
 import (
+	"context"
 	"fmt"
 	"sort"
 	"time"
@@ -234,7 +235,7 @@ type c08Obs struct {
 }
 
 func c08History(c *fw.Ctx, w *world, r *fw.Rand, steps int) {
-	g := &drv.HistGen{R: r, O: drv.HistOpts{Profile: "mixed", DBs: []string{"d", "e"}, Colls: []string{"c1", "c2"}, RichDocs: true, Pool: gen.Core},
+	g := &drv.HistGen{R: r, O: drv.HistOpts{Profile: "mixed", DBs: []string{"d", "e"}, Colls: []string{"c1", "c2"}, RichDocs: true, Pool: gen.Core, TTL: true},
 		Peek: w.peek, IndexNames: w.indexNames}
 	witness := func(extra map[string]interface{}) interface{} {
 		m := map[string]interface{}{"history": w.history()}
@@ -369,6 +370,34 @@ func c08History(c *fw.Ctx, w *world, r *fw.Rand, steps int) {
 			}
 			if !observe("transaction end") {
 				return
+			}
+			continue
+		}
+		if !w.inTxn && r.Chance(1, 25) {
+			// an expiry pass (what the background goroutine does): every removed
+			// document must be logged, the replay below notices a missing event
+			t, err := w.engine.Begin(context.Background(), true)
+			if err == nil {
+				len0 := mon.OplogLen(t.Catalog())
+				before := contentsOf(t.Catalog())
+				if err := t.Expire(); err != nil {
+					w.engine.Abort(t)
+					c.Violate("oplog:expire-error", "the expiry pass failed: "+err.Error(), witness(nil))
+					return
+				}
+				removed := before.changed(contentsOf(t.Catalog()))
+				delta := mon.OplogLen(t.Catalog()) - len0
+				w.engine.Commit(t)
+				w.engine.Abort(t)
+				w.note(fmt.Sprintf("-- expiry pass removed %d documents, logged %d events", removed, delta))
+				c.Count("expiry_passes", 1)
+				if removed != delta {
+					c.Violate("oplog:event-count", fmt.Sprintf("an expiry pass removed %d documents but appended %d events", removed, delta), witness(nil))
+					return
+				}
+				if !observe("expiry pass") {
+					return
+				}
 			}
 			continue
 		}
